@@ -306,4 +306,7 @@ COMMON_TRUSTED = [
     "harness/extract_tables.py (translator for finite tables; refuses shapes it does not know)",
     "harness/ser.py + lean/NgoVerif/Syntax.lean codec (a bug can hide a divergence, it cannot make a theorem true)",
     "hand-written Lean models in lean/NgoVerif/Model/*.lean are tied to /repo only through the correspondence run",
+    "the here-and-there semantics of typed programs (lean/NgoVerif/Sem/*.lean, incl. the head semantics of Sem/Head.lean) is ours; "
+    "its agreement with clingo is supported by the differential oracle, not proved; anonymous variables are renamed apart by "
+    "the harness before a rule reaches a Lean side-condition check",
 ]
